@@ -12,7 +12,7 @@ CHECKS = {
     "C07": ("model_checking",
             "TLA+ machine of the absolute parser (AbsParser.tla) model-checked against the oracle Reading(order, fields) with TLC; real API calls and probe events validated by TLC trace specs (T_C07.tla)",
             "TLC enumerates every valid date of a year grid x 6 orders x padding x time suffix and checks machine = oracle in every state; stratified + seeded real calls (every order x separator, every language and locale as source of the order) are judged by TLC against the same oracle, and every logged run of the real absolute parser must be a behaviour of the machine (refinement-on-trace). Bounded-exhaustive on the model, sampled on strings.",
-            "Trusted: TLC/SANY, CPython datetime, the token projection of harness/lib.py (uses the tree's own tokenizer). Domain excludes year-last '-' dates whose year spells a UTC offset.",
+            "Trusted: TLC/SANY, CPython datetime, the token projection of harness/lib.py (uses the tree's own tokenizer, itself bound to CharTokens.tla in this check). Domain excludes year-last '-' dates whose year spells a UTC offset.",
             "DESIGN.md 4 C07"),
 }
 CHECKS.update({
@@ -147,10 +147,10 @@ ADDED = {
     "C04": "Also: range ends; several units with a clock time; seconds and fractions in clock times; a third of the cases on parsers all built before use; implicit now with the library's clock moved to clamping days. Round 6: process histories with equal settings (one RELATIVE_BASE object per value and process). Round 7: decimal counts inside multi-unit phrases; Periods.tla (get_intersecting_periods / date_range) bound here as a refinement.",
     "C05": "Also: vocabulary taken from pristine data with a model-side overlay; regional locales loaded first in fresh processes; search_dates reaching a language first under the same settings; domain = the name as listed (normalisation collisions are findings). Round 6: the listed name's look-alikes (accents removed, other case) on the same parser right before the name.",
     "C06": "Also: wide counts (year-like, day-like, leading zero); the same phrase again under the other NORMALIZE value. Round 6: decimal counts with short and long fractions in both tiers.",
-    "C07": "Also: failing calls interleaved; pre-built parsers incl. settings with equal effective values and different explicit keys; weekday words next to numeric dates. Round 6: every written form of the time suffix (ISO T, fraction, Z, numeric offsets); year-last dates whose year spells a UTC offset are judged (known finding). Round 7: the parser used through a pickled / copied copy (fresh interpreters).",
+    "C07": "Also: failing calls interleaved; pre-built parsers incl. settings with equal effective values and different explicit keys; weekday words next to numeric dates. Round 6: every written form of the time suffix (ISO T, fraction, Z, numeric offsets); year-last dates whose year spells a UTC offset are judged (known finding). Round 7: the parser used through a pickled / copied copy (fresh interpreters). Round 8: the character scanner in front of the token machine (CharTokens.tla: the loop of parser.py's tokenizer and the token lists of _parser.__init__, 32 k states quick / 2.6 M thorough) is no longer trusted: ~5.5 k strings (exhaustive short strings, class pairs, date fragments, the strings that really reach the scanner in 200+ languages) go through the real scanner and constructor and TLC (T_CharTokens) compares every list; the trusted token projection now rests on a specified scanner.",
     "C08": "Also: decoy formats around the format under test; explicit / locale / region date orders for named-month dates; timezone-aware references near midnight; custom-format cases with the library's clock on days 28-31. Round 6: bystander settings (a REQUIRE_PARTS the string meets, defaults spelled out). Round 7: settings as Settings objects (one and two replace steps) or a dict emptied after construction.",
     "C09": "Also: zones with daylight saving around their transitions (time of day preserved); no RELATIVE_BASE with the live clock bracketed in workers far from UTC. Round 6: clock times that carry their own zone under every TIMEZONE. Round 7: timezone-aware references (calendar-field forms, and clock times under the reference's own DST zone: repaired by 990bda8); a parser for the same instant in another zone built next to each of them.",
-    "C10": "Also: every preference next to strictness; timezone-aware references of two offsets with results observed as instants. Round 6: fully stated four-digit-year dates in every order of writing x reading x preference; strings with two date tokens under every order (known finding).",
+    "C10": "Also: every preference next to strictness; timezone-aware references of two offsets with results observed as instants. Round 6: fully stated four-digit-year dates in every order of writing x reading x preference; strings with two date tokens under every order (known finding). Round 8: STRICT_PARSING switched on next to every REQUIRE_PARTS subset in ONE call (two more runs per input, two reference times): still only filters, still clock-free, still states every part (T_C10 clauses, outSR = outS in P_C10).",
     "C11": "Also: month-name bodies; the numeric spelling after the bare abbreviation in the same process; clock-time-only bodies with a zone under every preference. Round 6: English selected but not first among the languages; bodies in other space-separated languages with autodetection.",
     "C12": "Also: every (zone, own tzname also listed by the library) pair; a sample re-run in workers whose zone is far from UTC; timezone-aware reference times for relative phrases. Round 6: settings given as a Settings object / as a dict emptied after construction; relative phrases that move the reference across DST changes. Round 7: histories whose reference is the same instant written in another zone.",
     "C13": "Also: selections as locales=; order-specific numeric strings and tl as pairing reference; conventions of regional locales after same-language history in fresh processes; try_previous_locales pairs; Tokenize.tla / Translate.tla (split, applicability, translation: model laws, exhaustive small domain through the real Dictionary class, probes in 205 languages) and LoaderOps.tla / Loader.tla (pairing, order, cache; pinned pairing refuted; probe replay) are bound here. Round 6: the selected locale's date order reaches every parser (relation to the explicitly stated order, all five parsers). Round 7: the fallback order judged against each default language alone; the other use_given_order value first with the same settings and lists; caller-held lists compared afterwards.",
@@ -158,7 +158,7 @@ ADDED = {
     "C15": "Also: fractions of a second; the library's clock moved to the 30th / 31st of calendar months, month ends, leap days.",
     "C16": "Also: the generator run for real on a private copy (written files = shipped files). Round 6: the YAML-subset reader rejects duplicate keys as ruamel does.",
     "C17": "Also: connective words between date pieces; invisible characters inside texts; the same text re-cased right after the original; substrings must occur in their own letter case; refinement of the language choice (Detect.tla) and of the chunking loop (SearchChunks.tla). Round 6: enumerations joined by each of the library's cut marks in every language; refinement of split_by / choose_best_split / set_relative_base (SearchSplit.tla) and of the word alignment (Align.tla: laws model-checked, observed calls and an exhaustive small domain through the real method validated). Round 7: skip / pertain words at line ends; blank leftovers of non-ASCII whitespace (repaired by aaa6c4d).",
-    "C18": "Also: letter-ending strings and the sanitiser's special forms; number shapes of every parser; rewritings combined with date_formats. Round 6: whitespace by the hundreds of characters.",
+    "C18": "Also: letter-ending strings and the sanitiser's special forms; number shapes of every parser; rewritings combined with date_formats. Round 6: whitespace by the hundreds of characters. Round 8: two rewritings one after the other (trailing colon, then padding), strings that already end in a colon, the language-specific forms of sanitize_date under language detection; Sanitize.tla models both trim rules and the Croatian dotted-date rule (class U) with their pinned patterns as refutable constants (ComposedInvariant, PadInvariant over ALL strings, CroatInvariant); three repairs of /repo came out of it.",
     "C19": "Also: well-formed pickles of the wrong shape; imports under BUILD_TZ_CACHE and PYTHONOPTIMIZE. Round 6: imports with warnings turned into errors.",
     "C20": "Also: get_date_tuple in the call pool; the same exploration inside a forked child. Round 6: search_dates with the detected language reported; every preemption point outside the library's lock, explored first.",
 }
